@@ -233,3 +233,17 @@ Proof. exact wma_stream_pow2. Qed.
 Theorem C14_wma_pow2_binary64 : forall k p s xs xs', wma_new FOps p = Ok s -> Forall2 (scaled k) xs xs' -> wma_run_ok k s xs ->
   Forall2 (scaled k) (res_outs (wma_next FOps) s xs) (res_outs (wma_next FOps) s xs').
 Proof. exact wma_pow2_covariant. Qed.
+
+(* ... and for whole streams of StandardDeviation: the running mean scales by 2^k, the running sum of squares m2 — a sum of products of two
+   scaled differences — by 2^(2k), the clamp `if m2 < 0 { 0 }` commutes with every scaling, the variance m2 / count scales by 2^(2k) and
+   its correctly rounded square root by 2^k (C14_sqrt_pow2_binary64) *)
+From TA Require Import Proofs.FloatScaleSd.
+Theorem C14_sqrt_pow2_binary64 : forall k y y', scaled (2 * k) y y' -> (0 <= FR y)%R -> zero_or_normal k (R_sqrt.sqrt (FR y)) ->
+  scaled k (PrimFloat.sqrt y) (PrimFloat.sqrt y').
+Proof. exact fsqrt_scale. Qed.
+Theorem C14_sd_stream_pow2_binary64 : forall k xs xs' s s', rel_sd k s s' -> Forall2 (scaled k) xs xs' -> sd_run_ok k s xs ->
+  Forall2 (scaled k) (res_outs (sd_next FOps) s xs) (res_outs (sd_next FOps) s' xs').
+Proof. exact sd_stream_pow2. Qed.
+Theorem C14_sd_pow2_binary64 : forall k p s xs xs', sd_new FOps p = Ok s -> Forall2 (scaled k) xs xs' -> sd_run_ok k s xs ->
+  Forall2 (scaled k) (res_outs (sd_next FOps) s xs) (res_outs (sd_next FOps) s xs').
+Proof. exact sd_pow2_covariant. Qed.
